@@ -100,6 +100,15 @@ def requests(seed=1, size="quick"):
                 except Exception as e:   # noqa: BLE001
                     return "raise:" + type(e).__name__
             out.append(("mixed_step_memoization %d %d" % (n, s), memo))
+    def tabu(n, s):
+        try:
+            t = mixed.mixed_steps_tabulation(n, s)
+            return ";".join(",".join("%d %d %d" % tuple(int(v) for v in c) for c in row) for row in t)
+        except Exception as e:   # noqa: BLE001
+            return "raise:" + type(e).__name__
+    for n in (-2, -1, 0, 1, 2, 3, 5, 8, 13, 20 if big else 16):
+        for s in (-2, -1, 0, 1, 2, 3, 5, n - 1, n):
+            out.append(("tabulation %d %d" % (n, s), lambda n=n, s=s: tabu(n, s)))
     for _ in range(60):
         xs = [rng.randint(0, 9) for _ in range(rng.randint(1, 8))]
         out.append(("argmin " + " ".join(map(str, xs)), lambda xs=xs: _val(lambda: bf.argmin(list(xs)))))
